@@ -37,7 +37,7 @@ def run_case(rs, ctx):
     ops = gen.gen_ops(rs, cfg, sh, int(rs.integers(0, 4)), ["add_arm", "remove_arm"]) + \
         gen.gen_ops(rs, cfg, sh, 1, ["fit"], train_rows=(4, 16)) + \
         gen.gen_ops(rs, cfg, sh, int(rs.integers(8, 21)), KINDS, train_rows=(1, 8),
-                    sizes=(1, 2, 3, 5, 8) if rs.integers(4) else (1, 2, 17, 33, 70))
+                    sizes=(1, 2, 3, 5, 8) if rs.integers(4) else (1, 2, 17, 33, 70, 130))
     m = gen.build(cfg)
     arms = list(cfg["arms"])
     added_then_q = removed_then_q = False
